@@ -6,6 +6,7 @@ from ..program import AnalysisError, src, norm, ClassInfo
 from ..util import (is_name, calls_in, callee_qual, deref, ancestors, evaluator_calls, stmt_of, parent,
                     handler_outcomes, completes_normally, enclosing_trys, handler_covers, in_handler_of)
 from .common import option_usage, raise_discipline
+from ..pattern import match, matches
 
 info('C09',
      explanation='Static decision of: raise-class discipline in the match-mode evaluation functions (every '
@@ -201,9 +202,9 @@ def dict_branch(ctx):
     cfg = ctx.cfg(u)
     target, spec, scope = u.params[:3]
     # type rule first
-    first = u.node.body[0]
+    first = next((n for n in u.node.body if isinstance(n, (ast.If, ast.For, ast.While, ast.Try))), None)
     ok = isinstance(first, ast.If) and norm(first.test) == 'not isinstance(%s, dict)' % target
-    ctx.ob(ok, u, 'a dict pattern demands a dict target first: %s' % norm(first.test if isinstance(first, ast.If) else first))
+    ctx.ob(ok, u, 'a dict pattern demands a dict target first: %s' % (norm(first.test) if isinstance(first, ast.If) else None))
     loops = [n for n in u.own_nodes() if isinstance(n, ast.For)]
     outer = [l for l in loops if norm(l.iter) == '%s.items()' % target]
     ctx.require(len(outer) == 1, 'match dict: loop over target.items() not found')
@@ -250,8 +251,8 @@ def dict_branch(ctx):
         ctx.ob(ok, u, 'a matched spec key is no longer required: %s' % [norm(d) for d in disc])
     # required: == constants not Optional, or Required(...)
     req = [n for n in u.own_nodes() if isinstance(n, ast.SetComp)]
-    ok = len(req) == 1 and norm(req[0].generators[0].ifs[0]) == \
-        '_precedence(key) == 0 and type(key) is not Optional or type(key) is Required' if req and req[0].generators[0].ifs else False
+    ok = len(req) == 1 and bool(req[0].generators[0].ifs) and matches(
+        req[0].generators[0].ifs[0], '_precedence($k) == 0 and type($k) is not Optional or type($k) is Required')
     ctx.ob(ok, u, 'required keys: == constants unless Optional, and Required(...) keys: %s'
            % (norm(req[0].generators[0].ifs[0]) if req and req[0].generators[0].ifs else None))
     # the requirement test comes after the loop and raises
@@ -264,13 +265,16 @@ def dict_branch(ctx):
     ctx.ob(ok, u, 'missing required keys reject the target after all items were seen')
     # defaults: Optional(key, default) fills result for absent keys via arg_val
     dc = [n for n in u.own_nodes() if isinstance(n, ast.DictComp)]
-    ok = len(dc) == 1 and norm(dc[0].key) == 'key.key' and norm(dc[0].value) == 'key.default' and \
-        norm(dc[0].generators[0].ifs[0]) == 'type(key) is Optional and key.default is not _MISSING'
+    ok = len(dc) == 1 and bool(dc[0].generators[0].ifs)
+    if ok:
+        b = match(dc[0].key, '$k.key')
+        ok = b is not None and matches(dc[0].value, '$k.default', b) and \
+            matches(dc[0].generators[0].ifs[0], 'type($k) is Optional and $k.default is not _MISSING', b)
     ctx.ob(ok, u, 'defaults come from Optional keys that carry one: %s' % [norm(d) for d in dc])
     avs = [c for c in calls_in(u) if callee_qual(p, u, c) == 'core.arg_val']
     ok = len(avs) == 1 and is_name(avs[0].args[0], target)
     fl = [a for a in ancestors(avs[0]) if isinstance(a, ast.For)] if avs else []
-    ok = ok and bool(fl) and ' - set(' in norm(fl[0].iter)
+    ok = ok and bool(fl) and matches(fl[0].iter, 'set($d) - set($r)')
     ctx.ob(ok, u, 'only keys absent from the result receive their default: for ... in %s' % (norm(fl[0].iter) if fl else None))
     ctx.floor(14)
 
@@ -281,7 +285,7 @@ def dispatcher(ctx):
     u = ctx.unit('matching._glom_match')
     cfg = ctx.cfg(u)
     target, spec, scope = u.params[:3]
-    top = u.node.body[0]
+    top = next((n for n in u.node.body if isinstance(n, ast.If)), None)
     ctx.require(isinstance(top, ast.If), '_glom_match: dispatch chain not found')
     chain = []
     s = top
